@@ -211,7 +211,7 @@ def gen_lineage(rng, T, p, ids, P):
             subs.insert(rng.randint(0, len(subs)), ('ann', e))
     return ('grp', written, hid, label, subs)
 
-DEFAULT_P = dict(loss=0.25, dup=0.3, elide=0.5, subid=0.3, label=0.3, ann=0.25, loft=0.15, unary_trees=0.1, idless_top=0.08)
+DEFAULT_P = dict(loss=0.25, dup=0.3, elide=0.5, subid=0.3, label=0.3, ann=0.25, loft=0.15, unary_trees=0.1, idless_top=0.08, species_split=0.1, dbsplit=0.1, unnamed_root=0.08)
 
 def force_written(l):
     return ('grp', True) + tuple(l[2:])
@@ -542,6 +542,27 @@ def rand_xrefs(rng, gid):
             x[0] = (x[0][0], gid)
     return x
 
+def mislabel(rng, T, groups, prob=0.5):
+    """replace TaxRange labels by the name of a proper ancestor of the labelled level (own names).  The level rule never
+    reads the label of a multi-species group, so the file keeps its meaning; returns (groups, number of labels changed)"""
+    name_to_path = {display_name(T, p, 'own'): p for p in paths(T) if sub(T, p)[1]}
+    changed = [0]
+    def rec(e):
+        if e[0] == 'og':
+            items = []
+            for x in e[3]:
+                if x[0] == 'prop' and x[1] == 'TaxRange' and name_to_path.get(x[2]) and rng.random() < prob:
+                    q = name_to_path[x[2]]
+                    up = q[:rng.randint(0, len(q) - 1)]
+                    items.append(('prop', 'TaxRange', display_name(T, up, 'own'))); changed[0] += 1
+                else:
+                    items.append(rec(x))
+            return ('og', e[1], e[2], items)
+        if e[0] == 'pg':
+            return ('pg', e[1], [rec(x) for x in e[2]])
+        return e
+    return [rec(g) for g in groups], changed[0]
+
 def add_og_attrs(rng, elems, prob=0.3):
     """give some orthologGroups an `og` attribute (OMA writes one): different from the id, sometimes shared by nested
     groups of one family; groups without id get their id from it"""
@@ -578,6 +599,8 @@ def make_dataset(rng, T=None, naming=None, nfam=None, P=None, maxleaves=8, int_i
         naming = 'own'
     if naming is None:
         naming = rng.choice(['own', 'synth'])
+    if naming == 'own' and rng.random() < P.get('unnamed_root', 0.0):
+        T = ('', T[1])           # a Newick tree whose root carries no label: its own name is the empty string
     if int_ids is None:
         int_ids = rng.random() < 0.3
     ids = Ids(int_ids)
@@ -629,6 +652,17 @@ def make_dataset(rng, T=None, naming=None, nfam=None, P=None, maxleaves=8, int_i
         D.groups += encode(T, naming, p, l)
     D.base_groups = list(D.groups)
     D.meta = dict(singletons=nsingle, undeclared_species=undeclared, int_ids=int_ids)
+    # the same species declared in two <species> elements (e.g. one per source database): pyham merges them into one genome
+    if rng.random() < P.get('species_split', 0.0):
+        cand = [i for i, (_, gs) in enumerate(D.species) if len(gs) >= 2]
+        if cand:
+            i = rng.choice(cand)
+            name, gs = D.species[i]
+            k = rng.randint(1, len(gs) - 1)
+            D.species[i] = (name, gs[:k])
+            D.species.insert(rng.randint(i + 1, len(D.species)), (name, gs[k:]))
+            D.meta['species_split'] = name
+    D.meta['dbsplit'] = rng.random() < P.get('dbsplit', 0.0)
     return D
 
 def deep_chain_dataset(rng, depth=None):
@@ -749,6 +783,29 @@ def _nest(rng, items, prob):
         return [('pg', None, items[:2]), ('pg', None, items[2:])]
     return items
 
+def split_events(rng, elems, prob=0.7):
+    """rewrite a paralogGroup with >= 4 members as two SIBLING paralogGroups (two separate events, possibly on one branch).
+    This changes the meaning of the file and leaves the spelled-history domain; used only where the model itself is the
+    reference.  Returns (elems, number of groups split)"""
+    n = [0]
+    def rec(es):
+        out = []
+        for e in es:
+            if e[0] == 'og':
+                out.append(('og', e[1], e[2], rec(e[3])))
+            elif e[0] == 'pg':
+                items = rec(list(e[2]))
+                mem = [x for x in items if x[0] in ('ref', 'og')]
+                if len(mem) >= 4 and len(mem) == len(items) and rng.random() < prob:
+                    k = rng.randint(2, len(items) - 2)
+                    out += [('pg', e[1], items[:k]), ('pg', None, items[k:])]; n[0] += 1
+                else:
+                    out.append(('pg', e[1], items))
+            else:
+                out.append(e)
+        return out
+    return rec(elems), n[0]
+
 def species_wrap(rng, D, prob=0.35):
     """secondary stream: wrap gene references into species-level groups (TaxRange = species name),
     optionally with an in-paralog of the same species.  Such files are outside the spelled-history
@@ -777,7 +834,7 @@ def species_wrap(rng, D, prob=0.35):
                 out.append(e)
         return out
     D.groups = [('og', g[1], g[2], rec(g[3], False)) if g[0] == 'og' else g for g in D.groups]
-    D.species = [(name, genes + extra.get(name, [])) for name, genes in D.species]
+    D.species = [(name, genes + extra.pop(name, [])) for name, genes in D.species]    # (pop: a species may have two elements)
     D.families = []
     D.meta['species_level'] = counter[0] + 1
     return D
@@ -835,21 +892,37 @@ def xml_elems(es):
             out.append('<paralogGroup%s>%s</paralogGroup>' % (a, body) if body else '<paralogGroup%s/>' % a)
     return ''.join(out)
 
-def orthoxml(species, groups, newlines=True):
+DBSPLIT = [False]      # write the genes of a species in two <database> blocks (same meaning; set per dataset by core.load_py)
+
+def orthoxml(species, groups, newlines=True, dbsplit=None):
     nl = '\n' if newlines else ''
+    if dbsplit is None:
+        dbsplit = DBSPLIT[0]
     s = '<?xml version="1.0" encoding="UTF-8"?>' + nl
     s += '<orthoXML xmlns="http://orthoXML.org/2011/" version="0.3" origin="verif" originVersion="1">' + nl
     for name, genes in species:
-        s += '<species name="%s" NCBITaxId="1"><database name="d" version="1"><genes>' % xml_escape(name) + nl
-        for gid, xr in genes:
-            s += '<gene id="%s"%s/>' % (xml_escape(gid), ''.join(' %s="%s"' % (k, xml_escape(v)) for k, v in xr)) + nl
-        s += '</genes></database></species>' + nl
+        blocks = [genes[:len(genes) // 2], genes[len(genes) // 2:]] if (dbsplit and len(genes) >= 2) else [genes]
+        s += '<species name="%s" NCBITaxId="1">' % xml_escape(name)
+        for bi, block in enumerate(blocks):
+            s += '<database name="d%d" version="1"><genes>' % bi + nl
+            for gid, xr in block:
+                s += '<gene id="%s"%s/>' % (xml_escape(gid), ''.join(' %s="%s"' % (k, xml_escape(v)) for k, v in xr)) + nl
+            s += '</genes></database>'
+        s += '</species>' + nl
     s += '<scores><scoreDef id="Completeness" desc="x"/></scores>' + nl
     s += '<groups>' + nl
     for g in groups:
         s += xml_elems([g]) + nl
     s += '</groups>' + nl + '</orthoXML>' + nl
     return s
+
+def newick_named(T, p, naming):
+    """Newick text of the subtree at path p with every node labelled by its display name (what ete3 writes with format=8)"""
+    t = sub(T, p)
+    nm = display_name(T, p, naming) or 'NoName'          # ete3's spelling of an unlabelled node
+    if not t[1]:
+        return nm
+    return '(' + ','.join(newick_named(T, p + (i,), naming) for i in range(len(t[1]))) + ')' + nm
 
 def phyloxml(T, leaf_tag='taxonomy_scientific_name', internal_tag='taxonomy_scientific_name', internal_names=True):
     def clade(t):
